@@ -58,6 +58,13 @@ def type_graph(classes):
     return ids, graph
 
 
+def memo_of(recursion_cache, checker, dc):
+    """the memo of a checker class (an internal function: a signature without the default conversion is tried too, so that a refactoring of the
+    signature is not mistaken for a crash of the analysis - what the memo is keyed by is the business of `memo_keyed_by_default_conversion`)"""
+    try: return recursion_cache(checker, dc)
+    except TypeError: return recursion_cache(checker)
+
+
 def on_cycle(graph):
     succ = {i: set(ch) for i, ch in graph}
     out = set()
@@ -125,7 +132,7 @@ def run_part(seed, budget, exit_model="fixed"):
         answers, crash = [], None
         try:
             for s in starts: answers.append(bool(is_recursive(s, None, dc, checker)))
-            memo = {ids[k[0]]: v for k, v in recursion_cache(checker, dc).items() if k[0] in ids and k[1] is None}
+            memo = {ids[k[0]]: v for k, v in memo_of(recursion_cache, checker, dc).items() if k[0] in ids and k[1] is None}
         except BaseException as e:
             crash = f"{type(e).__name__}: {str(e)[:80]}"; memo = {}
         cyc = on_cycle(graph)
@@ -190,7 +197,7 @@ def run_part(seed, budget, exit_model="fixed"):
         ids, graph = type_graph(classes); apischema.cache.reset()
         dc = settings.deserialization.default_conversion
         for st in b["starts"]: is_recursive(classes[st], None, dc, DeserializationRecursiveChecker)
-        memo = {ids[k[0]]: v for k, v in recursion_cache(DeserializationRecursiveChecker, dc).items() if k[0] in ids and k[1] is None}
+        memo = {ids[k[0]]: v for k, v in memo_of(recursion_cache, DeserializationRecursiveChecker, dc).items() if k[0] in ids and k[1] is None}
         cyc = on_cycle(graph); wrong = sorted(i for i, v in memo.items() if v != (i in cyc))
         failures.append({"kind": "P" if wrong else "K", "k_ok": bool(wrong), "mode": "rec-graph-enumeration", "case": {"classes": src, "starts": b["starts"], "edges": b["edges"], "model": b["model"]},
                          "why": ["is_recursive-not-exact:" + ",".join(map(str, wrong))] if wrong else ["model-memo-not-exact-but-the-real-memo-is"]})
